@@ -16,9 +16,18 @@ func stepKind(st kernel.Step) int { return int(mod(st.Arg(1), numKinds)) }
 // depositMsg is the cross-chain message of deposit i: a serialized MakeTxParam, as the source
 // chain's cross-chain contract would have hashed into its storage.
 func depositMsg(seed uint64, i int, toChain uint64, salt int64) []byte {
-	id := crypto.Keccak256(binary.BigEndian.AppendUint64(binary.BigEndian.AppendUint64([]byte("ccid"), seed), uint64(i)))
+	return depositMsgID(seed, i, i, toChain, salt)
+}
+
+// depositMsgID: the message of deposit i carrying the cross-chain id of deposit idOf (idOf != i
+// models a source contract that emits two different messages under one id).
+func depositMsgID(seed uint64, idOf, i int, toChain uint64, salt int64) []byte {
+	id := crypto.Keccak256(binary.BigEndian.AppendUint64(binary.BigEndian.AppendUint64([]byte("ccid"), seed), uint64(idOf)))
+	if idOf != i {
+		salt ^= 0x5a5a + int64(i)<<4
+	}
 	mp := &ccom.MakeTxParam{
-		TxHash:              crypto.Keccak256(id),
+		TxHash:              crypto.Keccak256(id, []byte{byte(i)}),
 		CrossChainID:        id,
 		FromContractAddress: []byte{0xf0, byte(i), byte(salt)},
 		ToChainID:           toChain,
@@ -52,7 +61,8 @@ const (
 	depShort2    = 9  // same with a 2-byte value
 	depShortEdge = 10 // same with an edge value: 0x00, 0x0100, 0x80, 0x7f
 	depLeadZero  = 11 // genuine deposit whose message hash starts with a zero byte (stored as 31 bytes)
-	depKinds     = 12
+	depTwin      = 12 // a second, different message carrying the cross-chain id of an earlier deposit (own slot, fully valid proof)
+	depKinds     = 13
 )
 
 // buildTree creates every node of the plan ("hdr" steps, in order) with the deposits the plan
@@ -76,8 +86,14 @@ func (w *world) buildTree(steps []kernel.Step) {
 		if kind == depBadDest {
 			to = badChainID
 		}
-		d := &Deposit{Idx: len(w.c.Deps), Acct: int(mod(st.Arg(1), 2)), Slot: slotOf(len(w.c.Deps)), Msg: depositMsg(w.run.Plan.Seed, len(w.c.Deps), to, st.Arg(3))}
+		d := &Deposit{Idx: len(w.c.Deps), Acct: int(mod(st.Arg(1), 2)), Slot: slotOf(len(w.c.Deps)), Msg: depositMsg(w.run.Plan.Seed, len(w.c.Deps), to, st.Arg(3)), To: to, TwinOf: -1}
 		switch kind {
+		case depTwin:
+			if d.Idx > 0 {
+				first := w.c.Deps[mod(st.Arg(3), int64(d.Idx))]
+				d.Msg = depositMsgID(w.run.Plan.Seed, first.Idx, d.Idx, first.To, st.Arg(3))
+				d.To, d.TwinOf = first.To, first.Idx
+			}
 		case depShort1, depShort2, depShortEdge:
 			// a slot of the CCMC that does not hold a message hash at all (a flag, a counter ...)
 			d.Acct = 0
